@@ -132,11 +132,12 @@ Theorem C19_seq_slice_sound : forall (T O : Type) (mem : O -> T -> Prop) (ms : m
 Proof. exact (@seq_slice_sound). Qed.
 Print Assumptions C19_seq_slice_sound.
 
-Theorem C19_seq_slice_crash_iff : forall (T : Type) (ms : members T) s l,
+Theorem C19_seq_slice_step_zero_generic : forall (T : Type) (ms : members T) s l,
   member_sequence ms = Some l ->
-  (seq_getitem_slice ms s = SCrash <-> sl_step s = Some 0).
-Proof. exact (@seq_slice_crash_iff). Qed.
-Print Assumptions C19_seq_slice_crash_iff.
+  (seq_getitem_slice ms s = SGeneric <-> sl_step s = Some 0) /\
+  (sl_step s = Some 0 <-> py_slice l s = None).
+Proof. exact (@seq_slice_step_zero_generic). Qed.
+Print Assumptions C19_seq_slice_step_zero_generic.
 
 (* the offset of the unrepaired code (-key + 1) refutes C19_seq_index_sound:
    tuple[int0, *tuple[int1, ...], int2, int3, int4] at -1 answers int2 *)
